@@ -144,9 +144,10 @@ def run(repo: Repo, rep: Report, tier: str) -> None:
     rep.check(ok, "wire-match", "dul.DULServiceProvider._send", f"send({norm(snd[0].args[0]) if snd else '?'}) then EVT_PDU_SENT(pdu={attrs_of(ts[0]).get('pdu') if ts else '?'})", "the PDU notified as sent must be the one whose encoding was written to the socket, after the write", mod=dul, node=sf)
     ss = repo.func("transport", "AssociationSocket.send")
     bp = ss.args.args[1].arg
+    from .c16 import written_from_stream
     raw = [c for c in walk_no_nested(ss) if isinstance(c, ast.Call) and norm(c.func) == "self.socket.send"]
     tds = trigger_calls(ss, "EVT_DATA_SENT")
-    ok = len(raw) == 1 and len(tds) == 1 and attrs_of(tds[0]).get("data") == bp and norm(raw[0].args[0]).startswith(f"{bp}[") and raw[0].lineno < tds[0].lineno
+    ok = len(raw) == 1 and len(tds) == 1 and attrs_of(tds[0]).get("data") == bp and written_from_stream(ss, raw[0]) and raw[0].lineno < tds[0].lineno
     rep.check(ok, "wire-match", "transport.AssociationSocket.send", f"EVT_DATA_SENT(data={attrs_of(tds[0]).get('data') if tds else '?'}) after the send loop", "the bytes notified as sent must be the bytes written", mod=tr, node=ss)
     # every write to an association socket goes through AssociationSocket.send, every call of that through _send
     n_writes = 0
@@ -260,6 +261,12 @@ def run(repo: Repo, rep: Report, tier: str) -> None:
 
     check_delivery_snapshot(repo, rep)
     check_stop_only_idle(repo, rep)
+    # the provider thread survives: an event the state machine has no transition for kills it, and with it
+    # the connection-close notification (and the rest of the history)
+    from ..delegate import delegate
+    rep.rule("provider-survives", "no undefined (event, state) pair is fed to the state machine by the user-request guards (C05) or by a timer that runs while the machine considers it stopped (C04)")
+    delegate(repo, rep, tier, "C05", ("abort-once", "abort-not-after-release", "release-only-established"), "provider-survives", "the provider thread dies with InvalidEventError: EVT_CONN_CLOSE is never emitted, the transition history stops short of Sta1 and EVT_ABORTED can follow EVT_RELEASED")
+    delegate(repo, rep, tier, "C04", ("artim-run-state",), "provider-survives", "the provider thread dies with InvalidEventError in an established association: EVT_CONN_CLOSE is never emitted and the transition history stops in Sta6")
 
 
 IN_PLACE_REMOVALS = ("remove", "pop", "clear", "insert", "sort", "reverse")
